@@ -536,7 +536,9 @@ func (v *VM) CallWithArgsAndExpressions(context *Context, c Callable, args []Sta
 	_, err := c.CallFromStack(context, len(args), scratch[0:])
 	var result interface{}
 	if err == nil {
-		result = v.Stack[len(v.Stack)-1].Value.Interface()
+		if top := v.Stack[len(v.Stack)-1].Value; top.IsValid() { // Otherwise, the result is nil
+			result = top.Interface()
+		}
 	}
 	v.Stack = v.Stack[0:l]
 	return result, err
